@@ -113,6 +113,10 @@ func runProperty(opts *Options, p *PropInfo) (code int) {
 			if f := seedfix4[p.ID]; f != nil {
 				f(ctx)
 			}
+			if f := seedfix5[p.ID]; f != nil {
+				f(ctx)
+			}
+			runGeneric(ctx, p.ID)
 		}
 		if opts.Tier == "thorough" {
 			rep.config = "selftest"
@@ -176,6 +180,20 @@ func main() {
 	case "refnames":
 		// record the reference variable names of the current tree (run on /repo HEAD when rules are (re)confirmed)
 		if err := writeRefNames(opts.Repo); err != nil {
+			fmt.Fprintln(os.Stderr, err)
+			os.Exit(2)
+		}
+		// …and the inventory of memo sites (rules_memo.go)
+		var us []*Unit
+		for _, name := range []string{"vgirpc", "otel", "s3", "gcs"} {
+			u, err := LoadUnit(opts.Repo, name, defaultConfig)
+			if err != nil {
+				fmt.Fprintln(os.Stderr, err)
+				os.Exit(2)
+			}
+			us = append(us, u)
+		}
+		if err := writeRefMemo(us); err != nil {
 			fmt.Fprintln(os.Stderr, err)
 			os.Exit(2)
 		}
